@@ -195,10 +195,20 @@ class RemoteProxy(BaseProxy):
     async def stop(self) -> None:
         try:
             await asyncio.wait_for(self._channel.send(["stop", [], {}]), 0.1)
-        except (asyncio.TimeoutError, asyncio.IncompleteReadError):
+        except (asyncio.TimeoutError, asyncio.IncompleteReadError, ConnectionError):
             pass
-        await self._channel.close()
-        await self._reader_task
+        try:
+            await self._channel.close()
+        except ConnectionError:
+            # The simulator has reset the connection (e.g. its process
+            # died). The channel's receiver has ended with the same
+            # error, so the reader task will never see the end of the
+            # requests. Stopping the other simulators must go on.
+            self._reader_task.cancel()
+        try:
+            await self._reader_task
+        except asyncio.CancelledError:
+            pass
 
 
 def extract_version(meta: Meta) -> List[int]:
